@@ -118,6 +118,7 @@ def run(ctx, env):
     an = An(prog)
     ctx.rule("R15.1", "every capacity-style allocation call in a reachable crate body has a size argument that slices to a constant or to len() of existing data (through -, /, min)")
     ctx.rule("R15.2", "inside a repetition (CFG loop body, or closure handed to fold/try_fold/map/many0/count…) no clone/to_vec/cloned of a heap-owning value whose source is defined outside the repetition")
+    ctx.rule("R15.5", "a template read from the cache is borrowed by the decoders, never deep-copied: its size is independent of the data being decoded, so a copy per data flowset / set costs (number of sets) x (template size) for a buffer of minimal sets")
     ctx.rule("R15.3", "the per-packet result does not carry an owned copy of the whole remaining buffer")
     ctx.rule("R15.4", "every cache write is dominated by a validity guard that examines the field_length of all template fields (rejects zero-length fields), so each decoded field consumed >= 1 byte")
     if not roots_or_fail(ctx, prog, "R15.1", PARSE_ROOTS):
@@ -165,6 +166,30 @@ def run(ctx, env):
             ctx.ob("R15.2", b.path, "clone:%s:%s" % (c.nsyn.rsplit("::", 1)[1], short_ty(ty)), not inv,
                    ("deep copy of loop-invariant %s per iteration: %s" % (short_ty(ty), why)) if inv else ("copies a per-iteration value: %s" % why), site=b.line(blk))
     ctx.floor("R15.2", "crate", "heap-owning clone sites inside repetitions", nclone, 2)
+    # R15.5
+    from .cache import GET as _GET, PARSER_ADTS as _PADTS
+    ncl = 0
+    for b in sorted(bodies.values(), key=lambda x: x.path):
+        for blk, t, c in b.calls():
+            if c is None or not (c.nsyn in CLONERS or c.npath in CLONERS) or not t["args"]:
+                continue
+            src = an.op(b, t["args"][0])
+            gets = find(src, lambda n: n[0] == "call" and n[2] is not None and n[2].npath in _GET and n[3])
+            hit = None
+            for g in gets:
+                _, recv = an.lift(b, g[3][0])
+                recv = peel(recv)
+                if recv[0] == "field" and recv[3] in _PADTS:
+                    hit = recv
+            if hit is None:
+                continue
+            ncl += 1
+            adt_s = hit[3].rsplit("::", 1)[1]
+            owner = re.sub(r"(::\{closure#\d+\})+$", "", b.path)
+            ctx.ob("R15.5", owner, "cached-template-copied:%s.%s" % (adt_s, hit[2]), False,
+                   "%s deep-copies the template it looks up in %s.%s (%s) every time a data set of that id is decoded — the copy is as large as the cached template, however small the set" % (owner, adt_s, hit[2], c.nsyn.rsplit("::", 1)[1]),
+                   site=b.line(blk))
+    ctx.ob("R15.5", "decode-path", "cache-lookups-borrowed", ncl == 0, "%d clone(s) of cache lookups on the decode path" % ncl)
     # R15.3
     pn = prog.adts.get("ParsedNetflow")
     if ctx.anchor("R15.3", "ParsedNetflow", pn):
